@@ -188,8 +188,9 @@ def mapFault (w : String) : Prop := w = "*map = is outside m_slot_map" ∨ w = "
 
 instance (w : String) : Decidable (mapFault w) := by unfold mapFault; infer_instance
 
-/-- the faults of the model that the theorems of this group exclude: a write through a null cursor, a write outside the slot map -/
-def engineFault (w : String) : Prop := nullFault w ∨ mapFault w
+/-- the faults of the model that the theorems of this group exclude: a write through a null cursor, a write outside the slot map, an
+operand read outside the code's data area -/
+def engineFault (w : String) : Prop := nullFault w ∨ mapFault w ∨ w = "data"
 
 theorem not_mapFault_stack : ¬ mapFault "stack" := by unfold mapFault; decide
 theorem not_mapFault_data : ¬ mapFault "data" := by unfold mapFault; decide
